@@ -136,6 +136,13 @@ func judgeLit(c LitCase) *eng.Fail {
 	if f := check(src, want, 0, 1); f != nil {
 		return f
 	}
+	if adj := want.E + len(want.C.Text(10)) - 1; single && adj > -400 && adj < 400 && want.E > -70000 && want.E < 70000 {
+		// the literal as the whole formula: what Resolve hands back is the float64 of that number
+		if f := checkFloat(c.Lit, nil, want); f != nil {
+			f.Key = "C12/top-level-" + strings.TrimPrefix(f.Key, "C04/")
+			return f
+		}
+	}
 	if single {
 		// negation is an arithmetic operation: its result is rounded to 34 digits like any other
 		neg := want
@@ -287,6 +294,13 @@ func runC12(w *eng.W) {
 					emit("long", lit+e)
 				}
 			}
+		}
+	}
+	// more than 800 integer digits with a compensating exponent, and long fractions with a positive one
+	for _, lit := range []string{"1" + strings.Repeat("0", 1000) + "e-1000", "25" + strings.Repeat("0", 900) + "e-901", "3" + strings.Repeat("0", 2000) + "e-1990", strings.Repeat("9", 850) + "e-849",
+		"0." + strings.Repeat("0", 1000) + "1e1001", "1" + strings.Repeat("0", 799) + "e-799", "1" + strings.Repeat("0", 800) + "e-800", "1" + strings.Repeat("0", 801) + "e-801", strings.Repeat("12345", 400) + "e-1995", "7" + strings.Repeat("0", 5000) + "E-5000"} {
+		if w.Take() {
+			emit("long-compensated", lit)
 		}
 	}
 	// exponents of 18 to 25 digits around the edges of 64-bit integers
